@@ -2,7 +2,9 @@
 #include "vf_main.hpp"
 
 #include <Eigen/Core>
+#include <algorithm>
 #include <cassert>
+#include <climits>
 #include <memory>
 #include <string>
 #include "romea_core_common/containers/grid/WrappableGrid.hpp"
@@ -47,21 +49,23 @@ struct Model
 template<class T> struct CellOf;
 template<> struct CellOf<int>
 {
-  static int make(int v) {return v;}
+  static int make(int v) {return v == INT_MIN ? int() : v;}   // INT_MIN stands for "the default empty value T()"
   static std::string show(int v) {return std::to_string(v);}
 };
 template<> struct CellOf<std::string>
 {
-  static std::string make(int v) {return "cell-value-kept-on-the-heap:" + std::to_string(v);}
+  static std::string make(int v) {return v == INT_MIN ? std::string() : "cell-value-kept-on-the-heap:" + std::to_string(v);}
   static std::string show(const std::string & v) {return "\"" + v + "\"";}
 };
 
-// kind 0 translate(k, value) ; 1 write(cell)=value ; 2 continue on a copy-constructed grid ; 3 on a copy-assigned one
+// kind 0 translate(k, value), or translate(k) with the default empty value when value is INT_MIN ; 1 write(cell)=value ;
+// 2 continue on a copy-constructed grid ; 3 on a copy-assigned one ; 4 setValue(value): every cell written at once
 struct GridOp {int kind; int k[3]; int cell[3]; int value;};
 
 template<size_t DIM, class T = int>
-void runHistory(vf::Ctx & c, const int * n, const std::vector<GridOp> & ops)
+void runHistory(vf::Ctx & c, const int * n, const std::vector<GridOp> & ops, bool deep, uint64_t touchSeed = 0)
 {
+  vf::Rng touch(touchSeed);
   using Grid = romea::core::WrappableGrid<T, DIM>;
   using CT = CellOf<T>;
   using CellIndexes = typename Grid::CellIndexes;
@@ -104,8 +108,11 @@ void runHistory(vf::Ctx & c, const int * n, const std::vector<GridOp> & ops)
     } else if (op.kind == 0) {
       Offset off;
       for (size_t d = 0; d < DIM; ++d) {off[d] = op.k[d];}
-      grid.translate(off, CT::make(op.value));
+      if (op.value == INT_MIN) {grid.translate(off);} else {grid.translate(off, CT::make(op.value));}
       m.translate(op.k, op.value);
+    } else if (op.kind == 4) {
+      grid.setValue(CT::make(op.value));
+      std::fill(m.cells.begin(), m.cells.end(), op.value);
     } else {
       CellIndexes ci;
       for (size_t d = 0; d < DIM; ++d) {ci[d] = static_cast<size_t>(op.cell[d]);}
@@ -115,6 +122,18 @@ void runHistory(vf::Ctx & c, const int * n, const std::vector<GridOp> & ops)
     // after every op: every cell and the reported offset
     Grid & gridNow = *gridHolder;
     const Grid & cg = gridNow;
+    const romea::core::Grid<T, DIM> & asBase = gridNow;   // operator() is virtual: the base interface reads the same window
+    for (size_t d = 0; d < DIM; ++d) {
+      if (cg.getNumberOfCellsAlongAxes()[d] != nn[d]) {c.fail(vf::fmt("after op %d: getNumberOfCellsAlongAxes() changed along axis %zu", step, d));}
+    }
+    if (deep) {
+      // the buffer holds the cells of the window, in whatever physical order
+      std::vector<T> stored(cg.getBuffer().begin(), cg.getBuffer().end()), want;
+      for (int v : m.cells) {want.push_back(CT::make(v));}
+      std::sort(stored.begin(), stored.end());
+      std::sort(want.begin(), want.end());
+      if (!(stored == want)) {c.fail(vf::fmt("after op %d: getBuffer() does not hold the values of the window's cells", step));}
+    }
     int i[3];
     for (i[2] = 0; i[2] < m.n[2]; ++i[2]) {
       for (i[1] = 0; i[1] < m.n[1]; ++i[1]) {
@@ -123,12 +142,28 @@ void runHistory(vf::Ctx & c, const int * n, const std::vector<GridOp> & ops)
           for (size_t d = 0; d < DIM; ++d) {ci[d] = static_cast<size_t>(i[d]);}
           const T & got = cg(ci);
           int want = m.cells[m.lin(i)];
+          if (deep && !(asBase(ci) == got)) {c.fail(vf::fmt("after op %d: cell (%d,%d,%d) read through the Grid base interface differs", step, i[0], i[1], i[2]));}
           if (!(got == CT::make(want))) {
             c.fail(vf::fmt("after op %d (%s): cell (%d,%d,%d) of a %dx%dx%d grid reads %s, the window model says %s",
-              step, op.kind == 0 ? "translate" : (op.kind == 1 ? "write" : "copy"), i[0], i[1], i[2], m.n[0], m.n[1], m.n[2],
+              step, op.kind == 0 ? "translate" : (op.kind == 1 ? "write" : (op.kind == 4 ? "setValue" : "copy")), i[0], i[1], i[2], m.n[0], m.n[1], m.n[2],
               CT::show(got).c_str(), CT::show(CT::make(want)).c_str()));
           }
         }
+      }
+    }
+    if (deep) {
+      // the cell looked at last before the next operation varies (the sweep above always ends in the last cell)
+      CellIndexes ci;
+      int t[3] = {0, 0, 0};
+      for (size_t d = 0; d < DIM; ++d) {
+        // biased to the first and last slab of each axis, where a translation starts blanking
+        uint64_t r = touch.below(4);
+        t[d] = r == 0 ? 0 : (r == 1 ? m.n[d] - 1 : static_cast<int>(touch.below(static_cast<uint64_t>(m.n[d]))));
+        ci[d] = static_cast<size_t>(t[d]);
+      }
+      if (!(cg(ci) == CT::make(m.cells[m.lin(t)]))) {
+        c.fail(vf::fmt("after op %d: cell (%d,%d,%d) read once more reads %s, the window model says %s", step, t[0], t[1], t[2],
+          CT::show(cg(ci)).c_str(), CT::show(CT::make(m.cells[m.lin(t)])).c_str()));
       }
     }
     auto off = gridNow.getIndexOffsetAlongAxes();
@@ -191,7 +226,7 @@ void enumerated(vf::Ctx & c)
   }
   classify(c, DIM, n, ops);
   c.commit();
-  runHistory<DIM>(c, n, ops);
+  runHistory<DIM>(c, n, ops, false);   // the enumeration keeps to the window model; the random histories also look at the rest of the interface
 }
 
 // ---- random histories: grids up to 8 cells per axis, <= 50 ops, offsets up to twice the size, writes ----
@@ -204,11 +239,16 @@ void randomHistory(vf::Ctx & c)
   if (DIM == 3) {n[2] = static_cast<int>(c.s.i("nz", 1, 8));}
   int L = static_cast<int>(c.s.len("n_ops", 1, 50));
   std::vector<GridOp> ops;
-  bool copied = false;
+  bool copied = false, usedDefault = false, filled = false;
   for (int t = 0; t < L; ++t) {
     GridOp op{};
-    op.kind = static_cast<int>(c.s.pick("op", {9, 3, 1, 1}));
-    if (op.kind >= 2) {
+    op.kind = static_cast<int>(c.s.pick("op", {9, 3, 1, 1, 1, 2}));
+    const bool defaultEmpty = op.kind == 5;
+    if (defaultEmpty) {op.kind = 0; usedDefault = true;}
+    if (op.kind == 4) {
+      op.value = static_cast<int>(c.s.i("value", -1000000, 1000000));
+      filled = true;
+    } else if (op.kind >= 2) {
       copied = true;
     } else if (op.kind == 0) {
       for (size_t d = 0; d < DIM; ++d) {
@@ -217,7 +257,7 @@ void randomHistory(vf::Ctx & c)
           op.k[d] = static_cast<int>(c.s.i("k", -n[d], n[d]));
         } else {op.k[d] = static_cast<int>(c.s.i("k", -2 * n[d], 2 * n[d]));}
       }
-      op.value = static_cast<int>(c.s.i("empty", -1000000, 1000000));
+      op.value = defaultEmpty ? INT_MIN : static_cast<int>(c.s.i("empty", -1000000, 1000000));
     } else {
       for (size_t d = 0; d < DIM; ++d) {op.cell[d] = static_cast<int>(c.s.i("cell", 0, n[d] - 1));}
       op.value = static_cast<int>(c.s.i("value", -1000000, 1000000));
@@ -229,8 +269,11 @@ void randomHistory(vf::Ctx & c)
   for (const auto & op : ops) {hasWrite = hasWrite || op.kind == 1;}
   if (hasWrite) {c.label("writes-interleaved");}
   if (copied) {c.label("continued-on-a-copy-of-the-grid");}
+  if (usedDefault) {c.label("translate-with-the-default-empty-value");}
+  if (filled) {c.label("setValue(all cells)");}
+  const uint64_t touchSeed = c.s.seed("last_read_seed");
   c.commit();
-  runHistory<DIM, T>(c, n, ops);
+  runHistory<DIM, T>(c, n, ops, true, touchSeed);
 }
 
 const char * kEnumRule =
@@ -239,7 +282,7 @@ const char * kEnumRule =
   "window model after every translation. Non-trivial: a translation performed while the accumulated offset is non-zero "
   "modulo the size in some axis (i.e. not the first translation from the pristine state). Leaves are distinct by construction.";
 const char * kRandRule =
-  "grids with 1..8 cells per axis, 1..50 ops (3:1 translate:write), per-axis offsets 0 / within +-n / within +-2n, arbitrary "
+  "grids with 1..8 cells per axis, 1..50 ops (translate with a given or the default empty value, write, setValue, continue on a copy), per-axis offsets 0 / within +-n / within +-2n, arbitrary "
   "empty and written values in +-1e6; the *_heap_cells variants run the same histories on a grid of std::string cells "
   "(values long enough to own heap memory). Non-trivial: same rule as the enumeration.";
 
